@@ -388,12 +388,26 @@ def adversarial(seed, sizes, tag="adv"):
             "chunksemiws": (b"1 " + b"; \t" * (n // 3) + b"\r\n", "c", 0),
             "chunkws": (b"1" + b" \t" * (n // 2) + b"\r\n", "c", 0),
             "chunkpart": (b"1;" + b";x" * (n // 2), "c", 0),
+            # buffers that END inside a run (the parser is waiting for more input)
+            "owspart": (b"A:" + b" \t" * (n // 2), "h", 0),
+            "owspartq": (b"GET / HTTP/1.1\r\nHost:" + b" " * n, "q", 0),
+            "foldpart": (b"HTTP/1.1 200 OK\r\nX:\r\n" + b" \t" * (n // 2), "p", 2),
+            "namepart": (b"a" * n, "h", 0),
+            "valuepart": (b"A: " + b"v" * n, "h", 0),
+            "reasonpart": (b"HTTP/1.1 200 " + b"r " * (n // 2), "p", 0),
+            "spacespart": (b"GET " + b" " * n, "q", 4),
         }
         for name, (b, kind, cfg) in fams.items():
             cap = 0 if name == "many" and n > 4096 else 8
             out.append(("A", "%s.%s.%d" % (tag, name, n), kind, 0 if kind in "hc" else 1, cfg, 0 if kind == "c" else cap, b))
             if name == "many":
                 out.append(("A", "%s.%s.%d.big" % (tag, name, n), kind, 1, cfg, min(4000, n // 6 + 1), b))
+            # the same input cut inside its long run (the call then answers Partial / Err): work done while
+            # WAITING for more input must be linear too
+            if "part" not in name:
+                cutb = b[:len(b) * 3 // 4]
+                out.append(("A", "%s.%scut.%d" % (tag, name, n), kind,
+                            0 if kind in "hc" else 1, cfg, 0 if kind == "c" else cap, cutb))
     return out
 
 
